@@ -27,7 +27,7 @@ import (
 )
 
 var (
-	memfs    = newStrictFs()
+	memfs    = hutil.NewStrictFs()
 	initOnce sync.Once
 )
 
